@@ -49,7 +49,7 @@ inline cell_type_parameters base_type(int cls, vh::Rng& g, double V0) {
 
 inline global_simulation_parameters base_params(vh::Rng& g) {
     global_simulation_parameters P; P.perform_initial_triangulation_ = false; P.enable_edge_swap_operation_ = g.coin(0.5);
-    P.damping_coefficient_ = 5e-10 * g.logu(0.5, 2); P.time_step_ = 1e-7 * g.logu(0.5, 1.5); P.min_edge_len_ = 7.5e-7;
+    P.damping_coefficient_ = 5e-10 * g.logu(0.5, 2); P.time_step_ = 1e-7 * g.logu(0.3, 1.0); P.min_edge_len_ = 7.5e-7;
     P.contact_cutoff_adhesion_ = 5e-7 * g.logu(0.6, 1.2); P.contact_cutoff_repulsion_ = 5e-7 * g.logu(0.6, 1.2);
     P.simulation_duration_ = 100 * P.time_step_; P.sampling_period_ = 10 * P.time_step_; return P;
 }
@@ -137,6 +137,16 @@ inline std::vector<cell_ptr> build_cells(const Scenario& s, std::vector<cell_typ
     for (auto& c : s.cells) cells.push_back(gen::make_cell_of_class(tp[c.type_index]->global_type_id_, c.mesh, id++, tp[c.type_index]));
     if (types_out) *types_out = tp; return cells;
 }
+
+// An unstable simulation (time step too large for the stiffness of a freshly divided or collapsing cell) makes coordinates explode; the
+// refiner then needs (extent / l_max)^2 operations and practically never returns.  Monitored runs end at the first sign of it (checked by
+// the phase hook right after the integration phase) and the case is counted as 'unstable', never as a verdict.
+struct unstable_run {};
+inline bool blown_up(const std::vector<cell_ptr>& L, double limit) {
+    for (auto& c : L) for (const node& n : cell_tester::nodes(*c)) if (n.is_used()) { double x = n.pos().dx(), y = n.pos().dy(), z = n.pos().dz(); if (!(std::fabs(x) < limit && std::fabs(y) < limit && std::fabs(z) < limit)) return true; }
+    return false;
+}
+inline double extent_limit(const Scenario& s) { double m = 0; for (auto& c : s.cells) for (auto& p : c.mesh.P) for (double x : p) m = std::max(m, std::fabs(x)); return 100.0 * (m + 1e-4); }
 
 // solver with its protected state exposed
 class msolver : public solver {
